@@ -149,6 +149,8 @@ type Machine struct {
 	Sched          Scheduler
 	uniq           map[string]*Value
 	jsonAppend     *ssa.Function
+	fs             map[string]bool
+	fsTemp         int
 	model          map[string]uint64
 	modelValid     bool
 	auxVars        []*Term
